@@ -721,7 +721,7 @@ def deinterleave : List α → List α × List α
   | _ => ([], [])
 
 /-- `OodFrame::parse(main_trace_width, aux_trace_width, num_evaluations)`: current row, next row, Lagrange
-    kernel frame, constraint evaluations (bytes left over after the Lagrange frame are not looked at) -/
+    kernel frame, constraint evaluations (each of the three blocks must be consumed entirely) -/
 def oodParse (e : Codec ε) (f : OodFrame) (main aux nev : Nat) :
     Res (List ε × List ε × Option (List ε) × List ε) :=
   if main = 0 ∨ nev = 0 then .panic
@@ -732,8 +732,8 @@ def oodParse (e : Codec ε) (f : OodFrame) (main aux nev : Nat) :
         let l ← readMany e.dec n
         pure (some l)
       else pure none
-    match lagDec f.lagrange with
-    | .ok (lag, _) =>
+    match runAll lagDec f.lagrange with
+    | .ok lag =>
       let k := if lag.isSome then 1 else 0
       if aux < k then .err
       else
